@@ -13,7 +13,7 @@ IsEvent(e) == l <= Len(Log) /\ Log[l].e = e /\ l' = l + 1
 Init == PInit(<<0, 0>>, FALSE) /\ l = 1
 TReset == /\ IsEvent("Reset")
           /\ tmpl' = E!EmptyFn /\ seq' = <<0, 0>> /\ dom' = ev.dom /\ okRecs' = <<0, 0>> /\ failAdv' = 0 /\ nmsg' = 0
-          /\ open' = TRUE /\ inflight' = << >> /\ lossy' = ev.lossy
+          /\ open' = TRUE /\ nextTid' = 255 /\ jsonMode' = FALSE /\ inflight' = << >> /\ lossy' = ev.lossy
 
 TSend == /\ IsEvent("ESend")
          /\ IF ev.err THEN SendFails(ev.set) ELSE Send(ev.set)
